@@ -54,6 +54,11 @@ pub fn nm_structs() {
     differ!(nm::base::Z, nm::repr::Z);
     assert!(digests::<nm::base::Z>().1 != digests::<nm::repr::Z>().1, "[C04/differ.layout] a representation attribute changes the alignment hash");
     assert!(digests::<nm::align8::W>().1 != digests::<nm::align16::W>().1, "[C04/differ.layout] the argument of a representation attribute changes the alignment hash");
+    assert!(digests::<(nm::align8::W,)>().1 != digests::<(nm::align16::W,)>().1, "[C04/differ.layout] the representation of the element type reaches the alignment hash of a tuple");
+    assert!(digests::<(nm::base::Z, nm::base::Z)>().1 != digests::<(nm::repr::Z, nm::repr::Z)>().1, "[C04/differ.layout] the representation of the element type reaches the alignment hash of a tuple");
+    assert!(digests::<[nm::align8::W; 2]>().1 != digests::<[nm::align16::W; 2]>().1, "[C04/differ.layout] the representation of the element type reaches the alignment hash of an array");
+    assert!(digests::<Vec<nm::align8::W>>().1 != digests::<Vec<nm::align16::W>>().1, "[C04/differ.layout] the representation of the element type reaches the alignment hash of a vector");
+    assert!(digests::<Option<nm::align8::W>>().1 != digests::<Option<nm::align16::W>>().1, "[C04/differ.layout] the representation of the payload type reaches the alignment hash of an option");
     assert!(digests::<nm::base::Z>().1 != digests::<nm::swapped::Z>().1, "[C04/differ.layout] field order of a zero-copy type changes the alignment hash");
 }
 
